@@ -474,7 +474,7 @@ def _noninterference(tier, seed):
             await B[0].gather_and_close(return_exceptions=True)
         return log["A"]
 
-    rounds = 40 if tier == "quick" else 400
+    rounds = 250 if tier == "quick" else 1500
     for k in range(rounds):
         rng = random.Random(seed * 977 + k)
         simple_a, simple_b = rng.random() < 0.3, rng.random() < 0.3
